@@ -7,6 +7,7 @@ From V.c15 Require Import C15HevcModel C15HevcSpec.
 From V.c15 Require Import C15HevcConfModel C15HevcConfSpec.
 From V.c15 Require Import C15InitModel C15InitSpec.
 From V.c15 Require Import C15Hevc2Model C15Hevc2Spec C15Avc2Model.
+From V.c15 Require Import C15HypModel.
 Require Import ExtrOcamlBasic.
 Separate Extraction
   parse_sps_er parse_sps_br flat_sps
@@ -23,4 +24,5 @@ Separate Extraction
   hconf_observe hconf_decode_observe expected_hconf_observe spec_hvcc nalus_fit hconf_depths_fit
   ainit_observe hinit_observe expected_ainit expected_hinit ainit_fits
   hparse_pps2_er hparse_pps2_br flat_hpps2 hnalu_pps2 expected_hpps2 hpps2_valid
-  parse_slice2_er parse_slice2_br.
+  parse_slice2_er parse_slice2_br
+  hyp_tie_raw hyp_sps_narrow hyp_pps_narrow hyp_hsps_narrow hyp_hsps_depths_ok.
